@@ -154,6 +154,12 @@ def run(ctx):
             model_out = vlib.coq_show(c04.HEADER, 'model_cdual %s' % pduals[idx][1])
             ctx.problem('correspondence', 'suite poly_constrained_dual: model and implementation disagree on %s; impl=%s model=%s'
                         % (pduals[idx][0], pduals[idx][2][:900], model_out[:900]), inputs=pduals[idx][0], failing_input_found=False)
+    from harness.props import lattice
+    why, nsolves = lattice.lattice_c05(ctx)
+    ctx.evaluations += nsolves
+    ctx.suites['option_level_lattice'] = {'solves': nsolves, 'failure': why}
+    if why:
+        ctx.problem('oracle', 'property fails on the implementation: ' + why, inputs={'suite': 'option_level_lattice'}, failing_input_found=True)
     cases = []
     for k in range(ctx.n(300, 3000)):
         n = ctx.rng.randint(1, 3)
